@@ -237,13 +237,13 @@ func cmdCheck(args []string) int {
 				if seenViol[key] {
 					continue
 				}
-				if !v.HasModel && h.Native {
+				if !v.HasModel && h.Native && !strings.HasPrefix(v.Key, "assert:E:") {
 					continue // try another path with the same key that has a confirmed model
 				}
 				seenViol[key] = true
 				vr := &ViolationReport{Key: key, Harness: h.Name, Detail: v.Detail, Model: v.Model, Events: p.Events, Decisions: p.Decisions}
 				rep.Violations = append(rep.Violations, vr)
-				if h.Native && v.HasModel {
+				if h.Native && v.HasModel && !strings.HasPrefix(v.Key, "assert:E:") {
 					violCases = append(violCases, nativeCase{Harness: h.Name, Values: v.Model})
 					violRefs = append(violRefs, vr)
 				} else {
